@@ -2,7 +2,7 @@
 From Coq Require Import Extraction ExtrOcamlBasic.
 From OV.C12 Require Import OpDefs Model.
 From OV.C15 Require Import Model Spec.
-From OV.gen Require Import C12_OpTable.
+From OV.gen Require Import C12_OpTable C15_Flags.
 Extraction Language OCaml.
 Extraction "../_work/extract/C15/model.ml"
   pinned fixed tokenize tokenizer_ops ptoks_of sy_parse print parse_source comma_args spec_verdict.
